@@ -121,6 +121,9 @@ pub fn times() -> Vec<Vec<TimeSpan>> {
         vec![span(tfix(10, 0), tfix(12, 0)), span(tfix(11, 0), tfix(16, 0))],
         vec![span(tfix(0, 0), tfix(5, 0))],
         vec![span(tfix(13, 30), tfix(14, 0))],
+        // a literal full-day span next to a span reaching 48:00 (`is_immutable_full_day` is a
+        // conjunction over the spans of the selector)
+        vec![span(tfix(0, 0), tfix(24, 0)), span(tfix(4, 0), tfix(48, 0))],
     ]
 }
 
